@@ -3,6 +3,11 @@
 import BtcVerif.Oracle.Util
 import BtcVerif.Model.Wif
 import BtcVerif.Model.XKey
+import BtcVerif.Model.Bip38
+import BtcVerif.Model.Address
+import BtcVerif.Prim.RIPEMD160
+import BtcVerif.Prim.Scrypt
+import BtcVerif.Prim.AES256
 import BtcVerif.Prim.SHA256
 import BtcVerif.Prim.Secp256k1
 
@@ -18,6 +23,34 @@ def flagOf : String → Option Bool
   | "0" => some false
   | "1" => some true
   | _ => none
+
+/-! ### BIP38 with the reference primitives -/
+
+/-- `elliptic.Marshal(Compressed)` of a point; the point at infinity is written as zero coordinates -/
+def serPoint (P : Option (Nat × Nat)) (compressed : Bool) : Bytes :=
+  match P with
+  | some Q => if compressed then Prim.Secp256k1.serCompressed Q else Prim.Secp256k1.serUncompressed Q
+  | none => if compressed then 0x02 :: List.replicate 32 0 else 0x04 :: List.replicate 64 0
+
+def bip38Hashes : Model.Address.Hashes :=
+  { hash160 := Prim.hash160, sha256 := Prim.sha256, cksum := keysCk }
+
+def bip38Prims : Model.Bip38.Prims where
+  scrypt := Prim.scrypt
+  aesEnc := Prim.aes256EncryptBlock
+  aesDec := Prim.aes256DecryptBlock
+  dsha256 := Prim.dsha256
+  cksum := keysCk
+  pubKey := fun k c => .ok (serPoint (Prim.Secp256k1.mul (beNat k) Prim.Secp256k1.G) c)
+  p2pkh := fun pub => Model.Address.makeP2PKHFromPublicKey bip38Hashes Model.Address.bitcoin pub
+  baseMul := fun k => .ok (serPoint (Prim.Secp256k1.mul (beNat k) Prim.Secp256k1.G) true)
+  pointMul := fun pt k c =>
+    match Prim.Secp256k1.parsePoint pt with
+    | none => .err
+    | some Q => .ok (serPoint (Prim.Secp256k1.mul (beNat k) (some Q)) c)
+  mulModN := fun a b => beBytes 32 ((beNat a * beNat b) % Prim.Secp256k1.n)
+
+def keyFlagStr (r : Bytes × Bool) : String := s!"{hexOf r.1} {if r.2 then 1 else 0}"
 
 def opKeys (op : String) (args : List String) : Option String :=
   match op, args with
@@ -47,6 +80,31 @@ def opKeys (op : String) (args : List String) : Option String :=
     let s ← parseHex s
     some (outcomeStr (fun r => s!"{hexOf r.key} {hexOf r.chainCode} {hexOf r.parentFingerprint} {r.depth} {r.index} {r.version}")
       (Model.XKey.deserialize keysCk keysPubOk s))
+  | "bip38.enc", [k, pw, c] => do
+    let k ← parseHex k
+    let pw ← parseHex pw
+    let c ← flagOf c
+    some (outcomeStr hexOf (Model.Bip38.encrypt bip38Prims k pw c))
+  | "bip38.dec", [s, pw] => do
+    let s ← parseHex s
+    let pw ← parseHex pw
+    some (outcomeStr keyFlagStr (Model.Bip38.decrypt bip38Prims s pw))
+  | "bip38.icode", [r, pw] => do
+    let r ← parseHex r
+    let pw ← parseHex pw
+    some (outcomeStr hexOf (Model.Bip38.intermediateCode bip38Prims r pw))
+  | "bip38.icodelot", [r, pw, lot, sq] => do
+    let r ← parseHex r
+    let pw ← parseHex pw
+    let lot ← lot.toNat?
+    let sq ← sq.toNat?
+    if lot ≥ 4294967296 ∨ sq ≥ 4294967296 then none else
+    some (outcomeStr hexOf (Model.Bip38.intermediateCodeLot bip38Prims r pw lot sq))
+  | "bip38.ecenc", [r, code, c] => do
+    let r ← parseHex r
+    let code ← parseHex code
+    let c ← flagOf c
+    some (outcomeStr hexOf (Model.Bip38.encryptIntermediateCode bip38Prims r code c))
   | _, _ => none
 
 end BtcVerif.Oracle
